@@ -393,7 +393,7 @@ theorem step_inv (cfg : Cfg) (s : St) (op : Op) : Inv (startArmed s op) (DU s) (
   | setRespTimeout ms => simp only [step, startArmed]; frame_inv h0.inv
   | acquire => simp only [step, startArmed]; frame_inv h0.inv
   | register id => simp only [step, startArmed]; frame_inv h0.inv
-  | release id => simp only [step, startArmed, releasePacketId]; frame_inv h0.inv
+  | release id => simp only [step, startArmed]; frame_inv h0.inv
   | erase id => simp only [step, startArmed]; frame_inv h0.inv
   | restoreHandled ids => simp only [step, startArmed]; frame_inv h0.inv
   | restorePackets ps => simp only [step, startArmed]; frame_inv h0.inv
